@@ -60,6 +60,11 @@ BigVectors ==
        ceilk |-> SCeil(p[1], p[2])[1], floork |-> SFloor(p[1], p[2])[1],
        closestk |-> SClosest(p[1], p[2])[1], classk |-> IF p[1] <= 30 THEN SClass(p[1], p[2]) ELSE -1] : p \in S }
 
+\* negative arguments down to the smallest int: n = -(2^k) + d, k up to 63 (d >= 0 there).  None is a power of two,
+\* the smallest power of two that is at least max(n, 2) is 2, and Floor returns its argument (n <= 2)
+NegVectors == { [k |-> k, d |-> d, ispow2 |-> FALSE, ceil |-> 2] : k \in 1..63, d \in SmallD } \ { [k |-> 63, d |-> d, ispow2 |-> FALSE, ceil |-> 2] : d \in {-2, -1} }
+ASSUME \A k \in 1..29, d \in SmallD : LET v == d - Pow2(k) IN ~IsPow2(v) /\ Ceil(v) = 2 /\ Floor(v) = v
+
 \* interval table: on (2^(k-1), 2^k] Ceil is 2^k and the class is k; on [2^k, 2^(k+1)) Floor is 2^k;
 \* Closest is 2^k on [2^k - 2^(k-2) , 2^k + 2^(k-1) ) with the tie 2^k + 2^(k-1) going up
 Intervals == { [k |-> k] : k \in 2..62 }
@@ -69,7 +74,7 @@ GFDFields ==
     { [fd |-> f, loop |-> l, row |-> r, col |-> c] :
         f \in {0, 1, 3, 255, 256, 65535, 65536, 2147483647}, l \in {0, 1, 127, 255}, r \in {0, 1, 128, 255}, c \in {0, 1, 255, 256, 32767, 32768, 65535} }
 
-Out == [small |-> SmallVectors, big |-> BigVectors, intervals |-> Intervals, gfd |-> GFDFields]
+Out == [small |-> SmallVectors, big |-> BigVectors, neg |-> NegVectors, intervals |-> Intervals, gfd |-> GFDFields]
 ASSUME JsonSerialize("tables.json", Out)
 
 VARIABLE x
